@@ -23,7 +23,8 @@ TIE = {'HighestAverages.evaluate': 'correspondence (streams ha-tie and ha-mono-p
        'convert.* additive folds, core.get_n_best': 'models shared with C13 / C09 (correspondence there); relational clauses on the implementation here',
        'convert.RankedToPositionalVotes.convert (shared ranks)': 'correspondence (stream pos-tie against Model/Convert.v img_positional, unit C13 convert; theorems '
                                                                  'C17_positional_shared / _leave_shared / _leave_pair / _rank_unranked / _added)',
-       'LargestRemainder.evaluate': 'model of C02 (Model/QuotaDistributor.v, correspondence there); the two elections of each paradox witness compared here (corpus lr-*.json)',
+       'LargestRemainder.evaluate': 'model of C02 (Model/QuotaDistributor.v, correspondence there); here: stream lr-hare-votes (the perturbed election against the model, spec = C17_lr_hare_votes) '
+                                    'and the two elections of each paradox witness (corpus lr-*.json)',
        'condorcet.Copeland/MinimaxCondorcet/Schulze': 'models of C05 (Model/Condorcet.v, correspondence there); relational clauses on the implementation here',
        'convert.RankedToCondorcetVotes.convert': 'correspondence (stream rc-tie against Model/Hybrids.v pairwise, unit C05+2; theorems C17_ballot_pairwise_exact, '
                                                  'C17_ballot_raises, C17_copeland_ballots, C17_minimax_ballots) + the exact delta evaluated on the implementation (stream rc-move-exact)',
@@ -61,7 +62,7 @@ PARTIAL = ['Schulze sole-winner monotonicity: REFUTED for votelib\'s ranking by 
            'highest averages: both clauses proved in full (C17_house_exact / C17_house_tie, C17_votes_full: non-strict divisors, zero votes, caps, ties in either run); '
            'hypotheses: divisor positive and non-decreasing on seat counts >= 0, votes >= 0, previous gains >= 0, the party present in both vote vectors',
            'largest remainder is not claimed by the property: Alabama paradox and the loss of a seat after gaining a vote under a rounded quota are kernel-checked on the '
-           'model (C17_lr_house_refuted, C17_lr_votes_droop_refuted) and replayed; vote monotonicity under the exact Hare quota is checked per case only',
+           'model (C17_lr_house_refuted, C17_lr_votes_droop_refuted) and replayed; vote monotonicity under the exact Hare quota (no caps, no previous gains) is proved: C17_lr_hare_votes',
            'positional rules: proved for every built-in scorer that is non-increasing along the ballot - all of Borda, Dowdall, modified Borda, fixed top; Geometric with base >= 1; '
            'SequenceBased with a non-increasing sequence ending non-negative (C17_scorer_ok, C17_positional_any); refuted otherwise (C17_scorers_conditions_needed); '
            'changed ballots with shared ranks: C17_positional_shared / _leave_shared / _leave_pair; an unranked winner ranked and an added ballot need non-negative scores '
@@ -1239,6 +1240,61 @@ def lr_paradox(ctx, stream, c):
     ctx.dist['lr-paradox:%s:%s' % (c['what'], 'reproduced' if got == c['seats'] else 'gone')] += 1
 
 
+# ---- largest remainder, exact Hare quota: vote monotonicity (C17_lr_hare_votes; not claimed by the property, proved over the model of C02)
+def lr_wire_result(wire):
+    v = common.parse_sx(wire)
+    if v[0] != 0:
+        return None
+    sure = {k: s for k, s in v[1] if not isinstance(k, list)}
+    tied = {x for k, s in v[1] if isinstance(k, list) for x in k}
+    return sure, tied
+
+
+def lr_hare_case(votes, n, **kw):
+    return dict(unit='largest_remainder', quota=[1], ae=True, pol=1, votes=votes, n=n, prev=[], caps=[], **kw)
+
+
+def lr_hare_pairs(rng, count):
+    for _ in range(count):
+        m = rng.randint(1, 6)
+        ids = list(range(1, m + 1))
+        rng.shuffle(ids)
+        style = rng.choice(['small', 'small', 'mid', 'frac', 'equal'])
+        votes = []
+        for k in ids:
+            v = (rng.randint(0, 6) if style == 'small' else rng.randint(0, 1000) if style == 'mid' else rng.choice([0, 12, 12, 24, 36]) if style == 'equal'
+                 else Fraction(rng.randint(0, 40), rng.randint(1, 3)))
+            votes.append([k, jq(v)])
+        if sum(q(v) for _, v in votes) == 0:
+            continue
+        n = rng.randint(1, rng.choice([3, 8, 20]))
+        p = rng.choice(ids)
+        vp = q(dict((k, v) for k, v in votes)[p])
+        inc = rng.choice([1, 1, 2, max(1, vp // 10), vp if vp else 5, Fraction(1, 3)])
+        v2 = [[k, jq(q(v) + inc) if k == p else v] for k, v in votes]
+        if rng.random() < 0.5:
+            rng.shuffle(v2)                      # the new dictionary in another insertion order
+        yield lr_hare_case(v2, n, mono=['votes', p, jq(vp)], base_votes=votes)
+
+
+def lr_hare_spec(c, io, mo):
+    rb = lr_wire_result(io)
+    if rb is None:
+        return 'LargestRemainder(hare) failed on a non-empty profile: %s' % io
+    base = lr_hare_case(c['base_votes'], c['n'])
+    r = common.call_impl(lambda: c02.impl(base), 5)
+    ra = lr_wire_result(r[1]) if r[0] == 'ok' else None
+    if ra is None:
+        return 'LargestRemainder(hare) failed on the base profile: %s' % (r[1:],)
+    p = c['mono'][1]
+    sa, sb = ra[0].get(p, 0), rb[0].get(p, 0)
+    if sb < sa:
+        return 'largest remainder (Hare): party %d holds %d seats for certain, %d after gaining votes' % (p, sa, sb)
+    if sb + (1 if p in rb[1] else 0) < sa + (1 if p in ra[1] else 0):
+        return 'largest remainder (Hare): party %d can reach %d seats (tie included), only %d after gaining votes' % (p, sa + (p in ra[1]), sb + (p in rb[1]))
+    return None
+
+
 def corpus():
     import os, json, glob
     for p in sorted(glob.glob(os.path.join(common.VERIF, 'corpus', ID, '*.json'))):
@@ -1301,6 +1357,8 @@ def run_corpus_case(ctx, c, stream='corpus'):
         ctx.differential(stream, [c], pa_model_line, pa_impl, canon=pa_canon, nontrivial=pa_nontrivial, spec=pa_spec, known_class=pa_diff_known)
     elif k == 'lr-paradox':
         lr_paradox(ctx, stream, c)
+    elif c.get('unit') == 'largest_remainder' and c.get('mono'):
+        ctx.differential(stream, [c], c02.model_line, c02.impl, canon=c02.canon, nontrivial=lambda c: True, spec=lr_hare_spec)
     elif c.get('unit') == 'highest_averages' and c.get('mono'):
         ctx.differential(stream, [c], c01.model_line, c01.impl, canon=c01.canon, nontrivial=mono_nontrivial, spec=mono_spec)
     elif c.get('unit') == 'highest_averages':
@@ -1317,6 +1375,8 @@ def explore(ctx, widen=1):
     ctx.differential('ha-mono-pairs', mono_pairs(rng, itertools.chain(c01.gen_random(rng, ctx.n(700, 8000) * widen), c01.gen_ties(rng, ctx.n(500, 6000) * widen),
                                                                      c01.gen_zero_caps(rng, ctx.n(300, 3000) * widen))),
                      c01.model_line, c01.impl, canon=c01.canon, nontrivial=mono_nontrivial, spec=mono_spec)
+    ctx.differential('lr-hare-votes', lr_hare_pairs(rng, ctx.n(1500, 20000) * widen), c02.model_line, c02.impl, canon=c02.canon,
+                     nontrivial=lambda c: True, spec=lr_hare_spec)
     pex = list(gen_pa_exhaustive())
     ctx.differential('pa-exhaustive-small', pex if ctx.tier != 'quick' else pex[::3], pa_model_line, pa_impl, canon=pa_canon,
                      nontrivial=pa_nontrivial, spec=pa_spec, known_class=pa_diff_known)
